@@ -11,6 +11,7 @@ import (
 	"strconv"
 	"strings"
 	"time"
+	"unicode/utf8"
 
 	"github.com/elliotchance/gedcom/v39"
 	"github.com/elliotchance/gedcom/v39/q"
@@ -756,14 +757,15 @@ func c16refCompare(l, r, op string) bool {
 var c16numWords = []string{"007", "010", "012", "08", "09", "00", "0", "-010", "8", "10", "#010", "#10", "#8", "#007", "16", "3", "0x10", "0X1f", "0x1p4", "0x1p-2", "0x.8p1",
 	"0x1_0p0", "0x_1p4", "0x1p", "0b11", "0o17", "017", "1_000", "1000", "1__0", "_1", "1_", "1e3", "1E3", "1e1_0", "1.0", "1", ".5", "5.", "0.5", "0.25", "+5", "5", "-5", " 5 ", "5 ",
 	"Inf", "-inf", "+Infinity", "infinit", "NaN", "nan", "+nan", "1e400", "1e-400", "9007199254740993", "9007199254740992", "9223372036854775808", "9223372036854775807",
-	"123456789012345678", "1.5", "1,5", "", " ", "x", "I1", "0x", ".", "e3", "1e", "-", "--5", "0e0", "-0"}
+	"123456789012345678", "1.5", "1,5", "", " ", "x", "I1", "0x", ".", "e3", "1e", "-", "--5", "0e0", "-0",
+	"@", "/", ",", "\xff", "\xc3(", "000", "\xc3\xa9\xc3\xa9"}
 
 // c16numericDocs: individuals whose pointers and names are numeric-looking strings.
 func c16numericDocs() [][]*TNode {
 	var ptrs []string
 	for _, w := range c16numWords {
 		w = c16litValue(w)
-		if w == "" || strings.ContainsAny(w, " @,") {
+		if w == "" || strings.ContainsAny(w, " @,/") || !utf8.ValidString(w) { // JSON replaces invalid UTF-8: literals only
 			continue
 		}
 		if _, ok := c15mkDoc([]*TNode{T("INDI", "", w)}); ok {
@@ -780,6 +782,41 @@ func c16numericDocs() [][]*TNode {
 		docs = append(docs, f)
 	}
 	return docs
+}
+
+// c16reuseKey: narrow matcher of the finding "Engine.Evaluate prepends the DocumentN statements on
+// every call": the reused engine's result is a list of strings that is the fresh result plus
+// further "DocumentN" entries (what `?` lists), and nothing else differs.
+func c16reuseKey(reuse string) string {
+	i := strings.Index(reuse, "): value ")
+	j := strings.Index(reuse, " / fresh: value ")
+	if i < 0 || j < 0 {
+		return ""
+	}
+	got, ok1 := c16items(c15Obs{Top: "value", JSON: reuse[i+len("): value ") : j]})
+	want, ok2 := c16items(c15Obs{Top: "value", JSON: reuse[j+len(" / fresh: value "):]})
+	if !ok1 || !ok2 || len(got) <= len(want) {
+		return ""
+	}
+	count := map[string]int{}
+	for _, w := range want {
+		count[w]++
+	}
+	for _, g := range got {
+		if count[g] > 0 {
+			count[g]--
+			continue
+		}
+		if !strings.HasPrefix(unhex(strings.TrimPrefix(g, "s")), "Document") {
+			return ""
+		}
+	}
+	for _, n := range count {
+		if n != 0 {
+			return ""
+		}
+	}
+	return "reused-engine-lists-documents-twice"
 }
 
 // c16candidates: smaller variants of a query — one statement or one pipeline stage dropped
@@ -1181,7 +1218,102 @@ func init() {
 			}
 		}
 
-		nPool := len(pool) // the shrinker appends smaller documents later
+		nPool := len(pool) // documents appended below (boundary audit, shrinker) have no API-reference jobs
+		// ---- boundary and state audit (notes/boundary-audit.md)
+		type extraCheck struct {
+			idx        int
+			want, what string
+		}
+		var extras []extraCheck
+		rb := r.Fork("boundary")
+		// engine state: one compiled query evaluated on a document, then (twice) on another one,
+		// against a freshly compiled query — after a value, an error, a recovered panic, a cycle error
+		reuseQ := []string{".Individuals | .Name | .Value", `.Individuals | First("-1")`, "X is .Individuals | Only(X); X", ".Individuals | Length", "?", ".Individuals | ?",
+			"Document1 | .Individuals | .Pointer", ".Individuals | Only(.Nodes | .Tag)", "N is .Individuals | Length; .Individuals | {n: N}", ".Families | .Husband | .Individual | .Pointer",
+			".Individuals | .Spouses | Length", "Combine(.Individuals, .Individuals) | Length", ".Individuals | NodesWithTagPath(\"BIRT\", \"DATE\") | Length"}
+		for i := c.N(250, 3000); i > 0; i-- {
+			reuseQ = append(reuseQ, g.program(3))
+		}
+		for _, qy := range reuseQ {
+			for k := 0; k < 2; k++ {
+				jobs = append(jobs, c15Job{qy, []int{rb.Intn(numStart), rb.Intn(numStart)}, "r"})
+				c.Count("source=engine-reuse")
+			}
+		}
+		// list lengths 1 / 65 / 1025 and argument counts 1 / 2 / 8 / 64 / 65 against the Go API
+		for _, n := range []int{1, 65, 1025} {
+			d, ok := c15mkDoc(c15bigDoc(n))
+			if !ok {
+				continue
+			}
+			pool = append(pool, d)
+			id := len(pool) - 1
+			ptrs := func(lo, hi int) string {
+				var sb strings.Builder
+				sb.WriteString("[ ")
+				for i := lo; i < hi; i++ {
+					sb.WriteString("s" + hexs(fmt.Sprintf("I%d", i+1)) + " ")
+				}
+				sb.WriteString("]")
+				return strings.ReplaceAll(sb.String(), "[ ]", "[  ]")
+			}
+			min := func(a, b int) int {
+				if a < b {
+					return a
+				}
+				return b
+			}
+			for _, k := range []int{0, 1, n - 1, n, n + 1, 64, 65, 1024, 1026} {
+				if k < 0 {
+					continue
+				}
+				addLaw(c16Law{"apiref", fmt.Sprintf(".Individuals | First(%d) | .Pointer", k), ptrs(0, min(k, n)) + c16sep + "First(k) of a long list is not its prefix of length min(k, len)", id})
+				addLaw(c16Law{"apiref", fmt.Sprintf(".Individuals | Last(%d) | .Pointer", k), ptrs(n-min(k, n), n) + c16sep + "Last(k) of a long list is not its suffix of length min(k, len)", id})
+			}
+			addLaw(c16Law{"apiref", fmt.Sprintf(".Individuals | Only(.Pointer = \"I%d\") | .Pointer", n), ptrs(n-1, n) + c16sep + "Only over a long list does not find its last element", id})
+			addLaw(c16Law{"apiref", ".Individuals | Only(.Sex | .String = \"Male\") | Length", "i" + strconv.Itoa(n/2) + c16sep + "Only over a long list does not keep exactly the matching elements", id})
+			addLaw(c16Law{"partition", ".Individuals", ".Sex | .String" + c16sep + `"Male"`, id})
+			for _, k := range []int{1, 2, 8, 64, 65} {
+				if n == 1025 && k > 8 {
+					continue
+				}
+				args := make([]string, k)
+				for i := range args {
+					args[i] = ".Individuals"
+				}
+				addLaw(c16Law{"apiref", "Combine(" + strings.Join(args, ", ") + ") | Length", "i" + strconv.Itoa(k*n) + c16sep + "Combine of k lists does not have k times the length", id})
+			}
+			for _, k := range []int{8, 64, 65} { // variable chains
+				chain := []string{"V0 is .Individuals"}
+				for i := 1; i < k; i++ {
+					chain = append(chain, fmt.Sprintf("V%d is V%d", i, i-1))
+				}
+				addLaw(c16Law{"apiref", strings.Join(chain, "; ") + fmt.Sprintf("; V%d | Length", k-1), "i" + strconv.Itoa(n) + c16sep + "a chain of variables does not evaluate to its first definition", id})
+			}
+		}
+		// MergeDocumentsAndIndividuals on 1+65 and 65+65 individuals against the library call
+		func() {
+			defer func() { recover() }()
+			var ids []int
+			for id := numStart; id < len(pool); id++ {
+				if n := len(pool[id].Forest); n == 2*1+2 || n == 2*65+2 {
+					ids = append(ids, id)
+				}
+			}
+			if len(ids) < 2 {
+				return
+			}
+			for _, pr := range [][2]int{{ids[0], ids[1]}, {ids[1], ids[1]}, {ids[1], ids[0]}} {
+				a, _ := gedcom.NewDocumentFromString(pool[pr[0]].Text)
+				b, _ := gedcom.NewDocumentFromString(pool[pr[1]].Text)
+				m, err := gedcom.MergeDocumentsAndIndividuals(a, b, gedcom.EqualityMergeFunction, gedcom.NewIndividualNodesCompareOptions())
+				if err != nil {
+					continue
+				}
+				jobs = append(jobs, c15Job{"MergeDocumentsAndIndividuals(Document1, Document2) | .Individuals | Length", []int{pr[0], pr[1]}, "j"})
+				extras = append(extras, extraCheck{len(jobs) - 1, "i" + strconv.Itoa(len(m.Individuals())), "MergeDocumentsAndIndividuals in a query differs from the library call"})
+			}
+		}()
 		obs := c15runJobs(pool, jobs, 20*time.Second)
 		for i, j := range jobs {
 			o := obs[i]
@@ -1192,12 +1324,21 @@ func init() {
 				c.Sample(map[string]string{"query": j.Query, "document": pool[j.Docs[0]].Text, "result": o.JSON})
 			}
 			c.Tie(c15req(pool, j), o.line("j"))
+			if j.Mode == "r" && o.Reuse != "same" && o.Reuse != "" {
+				c.Oracle(c16reuseKey(o.Reuse), "a compiled query that was already evaluated on another document gives another result than a freshly compiled one",
+					map[string]interface{}{"query": j.Query, "first_document": pool[j.Docs[0]].Text, "second_document": pool[j.Docs[1]].Text}, o.Reuse, "same")
+			}
 			if o.Top == "value" {
 				for _, w := range c16menuWords {
 					if strings.Contains(j.Query, w+" ") || strings.HasSuffix(j.Query, w) || strings.Contains(j.Query, w+")") || strings.Contains(j.Query, w+",") || strings.Contains(j.Query, w+"}") {
 						c.Count("accessor" + w)
 					}
 				}
+			}
+		}
+		for _, x := range extras {
+			if o := obs[x.idx]; o.Top != "value" || o.JSON != x.want {
+				c.Oracle("", x.what, map[string]interface{}{"query": jobs[x.idx].Query, "documents": c15texts(pool, jobs[x.idx].Docs)}, o.Top+" "+o.JSON, x.want)
 			}
 		}
 		c.Compare = c15compare(c)
